@@ -8,6 +8,7 @@ import (
 	"context"
 	"crypto/sha256"
 	"fmt"
+	"strings"
 	"testing"
 
 	"golang.org/x/mod/sumdb/tlog"
@@ -151,6 +152,11 @@ func TestVerifC04HugeIndex(t *testing.T) {
 
 		in, err := s.load(nil)
 		if err != nil {
+			if strings.Contains(err.Error(), "tile leaf entry") && strings.Contains(err.Error(), "hashes to") {
+				// the server re-encodes the entries of the (independently rendered) last data tile and gets other Merkle
+				// leaves than RFC 6962 prescribes for them: its own encoding of leaves near index S is not the prescribed one
+				t.Fatalf("C04 violated: the server's encoding of the leaves %d..%d differs from the prescribed one: it refuses their independent rendering as right edge: %v", S-256, S-1, err)
+			}
 			t.Fatalf("VERIF-INCONCLUSIVE: LoadLog refuses the fabricated right edge of a tree of %d leaves: %v", S, err)
 		}
 		defer in.close()
